@@ -19,17 +19,26 @@ def sig_str(sig):
 
 def partition(pid, violations, entries):
     """-> (new violations, [(entry, count)]) ; only status=='open' entries suppress."""
+    import re
     opens = {}
+    pats = []
     for e in entries:
         if e.get('status') == 'open' and pid in e.get('properties', [e.get('property')]):
-            for s in e.get('signatures', [e.get('signature')]):
+            for s in e.get('signatures', []):
                 opens[s] = e
+            for p in e.get('signature_patterns', []):
+                pats.append((re.compile(p), e))
     new = []
     known = {}
     for v in violations:
         s = sig_str(v['sig'])
         v['sig'] = s
         e = opens.get(s)
+        if e is None:
+            for p, pe in pats:
+                if p.fullmatch(s):
+                    e = pe
+                    break
         if e is not None:
             known.setdefault(e['id'], [e, 0])[1] += 1
         else:
